@@ -1384,7 +1384,8 @@ package framework
 //@   ensures [logsSame] logsSame()
 //@   ensures [virtual] noEmission() && reversals() == old(reversals()) && reverseFailures() == old(reverseFailures())
 //@   ensures [sessionKept] old(sessOK(ssn)) ==> sessionKept(ssn)
-//@   hint [cellForm] result1 == nil ==> subsetsOK(result0)
+//@   hint [initKept] forall j int :: 0 <= j && j < len(initNodeSet) ==> initNodeSet[j] == old(initNodeSet[j])
+//@   hint [allCandidates] result1 == nil ==> subsetsOK(result0)
 //@   ensures [subsetsOfParent] result1 == nil ==> forall a int, i int :: 0 <= a && a < len(result0) && 0 <= i && i < len(result0[a]) ==> result0[a][i] != nil && (exists j int :: 0 <= j && j < len(initNodeSet) && initNodeSet[j] == result0[a][i])
 //@   ensures [noSubsetFnIsIdentity] old(len(ssn.SubsetNodesFns)) == 0 ==> result1 == nil && len(result0) == 1 && result0[0] == initNodeSet
 //@   ensures [errorMeansNoSets] result1 != nil ==> len(result0) == 0
